@@ -269,4 +269,87 @@ theorem applyAll_no_fuel (E : Env) (hE : FuelFree E) (S0 : KVs) :
       subst h
       exact h1 hs
 
+/-! ## where a panic can come from -/
+
+theorem parseExtends_no_panic (e : Val) (s : String) : parseExtends e ≠ .panic s := by
+  unfold parseExtends
+  intro h
+  split at h <;> try cases h
+  split at h
+  · split at h <;> cases h
+  · cases h
+
+/-- a successful `applySvc` returns `null` or a mapping -/
+theorem applySvc_ok_shape {E : Env} : ∀ {fuel : Nat} {cf n : String} {cur : KVs} {tr : List Key} {v : Val} {cur' : KVs},
+    applySvc E fuel cf n cur tr = .ok (v, cur') → v = .null ∨ ∃ m, v = .map m := by
+  intro fuel
+  cases fuel with
+  | zero => intro cf n cur tr v cur' h; simp [applySvc] at h
+  | succ fuel =>
+    intro cf n cur tr v cur' h
+    rcases applySvc_ok_cases h with ⟨_, h2, _⟩ | ⟨_, h2, _⟩ | ⟨svc, _, _, h3, _⟩ |
+      ⟨svc, e, ref, file, svcs, key, same, tr', base, svcs', _, _, _, _, _, _, h7⟩
+    · exact Or.inl h2
+    · exact Or.inl h2
+    · exact Or.inr ⟨svc, h3⟩
+    · rcases h7 with ⟨_, hv, _⟩ | ⟨b, m, _, _, hv, _⟩
+      · exact Or.inr ⟨svc, hv⟩
+      · exact Or.inr ⟨_, hv⟩
+
+/-- a panic of `applySvc` is the out-of-fuel marker, a panic of the merge step, or a panic while loading a file -/
+theorem applySvc_panic_src (E : Env) : ∀ (fuel : Nat) (cf n : String) (cur : KVs) (tr : List Key) (s : String),
+    applySvc E fuel cf n cur tr = .panic s →
+    s = fuelMark ∨ (∃ b svc, E.extend b svc = .panic s) ∨ (∃ f, fsLookup f E.fs = some (.panic s)) := by
+  intro fuel
+  induction fuel with
+  | zero => intro cf n cur tr s h; simp only [applySvc, Out.panic.injEq] at h; exact Or.inl h.symm
+  | succ fuel ih =>
+    intro cf n cur tr s h
+    simp only [applySvc] at h
+    split at h <;> try cases h
+    rename_i svc hsvc
+    split at h <;> try cases h
+    rename_i e he
+    split at h
+    · rename_i s' hp; exact absurd hp (parseExtends_no_panic e s')
+    · cases h
+    · rename_i ref file hp
+      split at h
+      · rename_i s' hr
+        injection h with h; subst h
+        exact Or.inr (Or.inr (resolveBase_panic hr))
+      · cases h
+      · rename_i svcs key same hr
+        split at h <;> try cases h
+        rename_i tr' ht
+        split at h
+        · rename_i s' hrec; injection h with h; subst h; exact ih _ _ _ _ _ hrec
+        · cases h
+        · rename_i base svcs' hrec
+          split at h
+          · cases h
+          · rename_i b
+            split at h
+            · rename_i s' hx; injection h with h; subst h; exact Or.inr (Or.inl ⟨b, svc, hx⟩)
+            · cases h
+            · cases h
+          · rename_i hnn hnm
+            rcases applySvc_ok_shape hrec with hb | ⟨m, hb⟩
+            · exact absurd hb (by intro e; subst e; exact hnn rfl)
+            · subst hb; exact absurd rfl (hnm m)
+
+theorem applyAll_panic_src (E : Env) (fuel : Nat) : ∀ (names : List String) (cur : KVs) (s : String),
+    applyAll E fuel names cur = .panic s →
+    s = fuelMark ∨ (∃ b svc, E.extend b svc = .panic s) ∨ (∃ f, fsLookup f E.fs = some (.panic s)) := by
+  intro names
+  induction names with
+  | nil => intro cur s h; simp [applyAll] at h
+  | cons n ns ih =>
+    intro cur s h
+    simp only [applyAll] at h
+    split at h
+    · exact ih _ _ h
+    · cases h
+    · rename_i s' hs; injection h with h; subst h; exact applySvc_panic_src E fuel _ _ _ _ _ hs
+
 end CV.Extends
